@@ -287,6 +287,16 @@ def main(tier, replay):
                 if upgrade:
                     sizes = [0, 1, 17, 300, 4096, 8192, 20000, 65536]
                     pay = bytes((rng.next() & 0x7f) or 0x41 for _ in range(rng.pick(sizes)))
+                    if rng.chance(1, 2):
+                        # text-like sessions: short header lines followed by long bodies without a
+                        # line end (whatever buffers the copy must not care where lines end)
+                        parts = []
+                        for _ in range(rng.range(1, 4)):
+                            parts.append(b"HTTP/1.0 200 OK %d\n" % rng.range(0, 999) if rng.chance(2, 3) else b"\n")
+                            parts.append(bytes(0x41 + (rng.next() % 26) + (0x20 if rng.chance(1, 2) else 0) for _ in range(rng.pick([1023, 1024, 1025, 3000, 8005, 20000]))))
+                            if rng.chance(1, 2):
+                                parts.append(b"\n")
+                        pay = b"".join(parts)
                     same_write = rng.chance(1, 2)
                 case(ctx, mode, cmd, seq, beh, pay, same_write, table, resolver, std_addr, svcs, rng)
         # termination clause: the client closes right after its last request
